@@ -38,6 +38,13 @@ def main():
             prop = meta["property"]
             rc, out = sh(["git", "apply", os.path.join(d, "patch.diff")], cwd=wt)
             if rc:
+                # the stored patch was made against an older HEAD: merge it
+                sh(["git", "checkout", "--", "."], cwd=wt)
+                rc, out = sh(["git", "apply", "--3way", os.path.join(d, "patch.diff")], cwd=wt)
+                sh(["git", "reset", "-q"], cwd=wt)
+                if not rc and "conflict" in out.lower():
+                    rc = 1
+            if rc:
                 meta["recheck"] = {"head": head, "error": "patch does not apply: " + out[:200]}
                 print("%-28s PATCH-DOES-NOT-APPLY" % name)
             else:
